@@ -31,7 +31,8 @@ func init() {
 		CaseType: "ccase",
 		Footer:   "\nDefinition DIFF := Eval vm_compute in cdiffs cases.\nPrint DIFF.\nDefinition MON := Eval vm_compute in cmons cases.\nPrint MON.\n",
 		Rule: "one case = one Start..Stop life of the real reactor under P producer and K consumer goroutines (token count, " +
-			"output capacity, seeds, feedback probability, freeze point and schedule perturbation from the input); distinct by input " +
+			"output capacity, seeds, feedback probability, freeze point, schedule perturbation and whether feedback / finish are issued " +
+			"with the received object or another one carrying the same id, all from the input); distinct by input " +
 			"text; non-trivial when at least two calls overlapped in time and at least one insert had to wait or was turned away, " +
 			"or a feedback was issued, or the case has rounds in which a feedback races a finish of the same seed",
 		Setup:    setupReactor,
@@ -70,16 +71,21 @@ func genReactorConc(r *Rng, i int, tier string) string {
 			race = 20 + r.Intn(100)
 		}
 	}
-	return fmt.Sprintf("cap=%d ocap=%d p=%d k=%d seeds=%d fb=%d freeze=%d noise=%d race=%d sched=%d",
-		capN, ocap, p, k, seeds, fb, freeze, noise, race, r.Intn(1<<30))
+	sched := r.Intn(1 << 30)
+	return fmt.Sprintf("cap=%d ocap=%d p=%d k=%d seeds=%d fb=%d freeze=%d noise=%d race=%d sched=%d obj=%s",
+		capN, ocap, p, k, seeds, fb, freeze, noise, race, sched, rxObjModes[r.Intn(len(rxObjModes))])
 }
 
 func shrinkReactorConc(in string) []string {
 	kv := parseKV(in)
 	get := func(k string) int { n, _ := strconv.Atoi(kv[k]); return n }
 	mk := func(m map[string]int) string {
-		return fmt.Sprintf("cap=%d ocap=%d p=%d k=%d seeds=%d fb=%d freeze=%d noise=%d race=%d sched=%d",
+		base := fmt.Sprintf("cap=%d ocap=%d p=%d k=%d seeds=%d fb=%d freeze=%d noise=%d race=%d sched=%d",
 			m["cap"], m["ocap"], m["p"], m["k"], m["seeds"], m["fb"], m["freeze"], m["noise"], m["race"], m["sched"])
+		if kv["obj"] != "" {
+			base += " obj=" + kv["obj"]
+		}
+		return base
 	}
 	base := map[string]int{}
 	for _, k := range []string{"cap", "ocap", "p", "k", "seeds", "fb", "freeze", "noise", "race", "sched"} {
@@ -169,6 +175,22 @@ func execReactorConc(in string) Result {
 	get := func(k string) int { n, _ := strconv.Atoi(kv[k]); return n }
 	capN, ocap, P, K, seeds := get("cap"), get("ocap"), get("p"), get("k"), get("seeds")
 	fbPct, freezeAt, noise, race := get("fb"), get("freeze"), get("noise"), get("race")
+	obj := kv["obj"]
+	if obj == "" {
+		obj = "same"
+	}
+	freshFb := obj == "fresh-feedback" || obj == "both"
+	freshFin := obj == "fresh-finish" || obj == "both"
+	// carrier: the object an operation on seed id is issued with - the one received from the output, or
+	// another *models.Item with the same id (the reactor keys its state table by id)
+	carrier := func(kind byte, it *models.Item, id int) *models.Item {
+		if (kind == 'B' && freshFb) || (kind == 'F' && freshFin) {
+			n := models.NewItem(strconv.Itoa(id), &models.URL{Raw: "http://seed.example/" + strconv.Itoa(id)}, "")
+			n.SetSource(models.ItemSourceQueue)
+			return n
+		}
+		return it
+	}
 	if capN < 1 {
 		capN = 1
 	}
@@ -248,7 +270,7 @@ func execReactorConc(in string) Result {
 					t.call('B', ui, u)
 				}
 				if n <= 3 && t.rng.Intn(100) < fbPct {
-					if r := t.call('B', it, id); r != "ROk" {
+					if r := t.call('B', carrier('B', it, id), id); r != "ROk" {
 						dropped.Add(1)
 					}
 					continue
@@ -259,9 +281,10 @@ func execReactorConc(in string) Result {
 					// exactly one of them may succeed
 					hr := make(chan string, 1)
 					start := make(chan struct{})
-					go func() { <-start; hr <- helper.call('F', it, id) }()
+					hc := carrier('F', it, id)
+					go func() { <-start; hr <- helper.call('F', hc, id) }()
 					close(start)
-					r = t.call('F', it, id)
+					r = t.call('F', carrier('F', it, id), id)
 					if r2 := <-hr; r2 == "ROk" {
 						if r == "ROk" {
 							finished.Add(1) // both succeeded: counted, the monitors will object
@@ -269,7 +292,7 @@ func execReactorConc(in string) Result {
 						r = "ROk"
 					}
 				} else {
-					r = t.call('F', it, id)
+					r = t.call('F', carrier('F', it, id), id)
 				}
 				if r == "ROk" {
 					f := finished.Add(1)
@@ -280,7 +303,7 @@ func execReactorConc(in string) Result {
 					dropped.Add(1)
 				}
 				if noise >= 2 && t.rng.Chance(25) {
-					t.call('F', it, id)
+					t.call('F', carrier('F', it, id), id)
 				}
 			}
 		}(threads[P+k], threads[P+K+k])
@@ -356,6 +379,7 @@ func execReactorConc(in string) Result {
 			}
 			// released together: both spin on a barrier; the finish is delayed by a few dozen
 			// iterations at random so that its delete lands at different points of the feedback
+			bc, fc := carrier('B', it, id), carrier('F', it, id)
 			var ready atomic.Int32
 			var sink atomic.Int64
 			delay := sched.Intn(200)
@@ -364,7 +388,7 @@ func execReactorConc(in string) Result {
 				ready.Add(1)
 				for ready.Load() < 2 {
 				}
-				br <- tb.callNow('B', it, id)
+				br <- tb.callNow('B', bc, id)
 			}()
 			go func() {
 				ready.Add(1)
@@ -373,7 +397,7 @@ func execReactorConc(in string) Result {
 				for d := 0; d < delay; d++ {
 					sink.Add(1)
 				}
-				fr <- ta.callNow('F', it, id)
+				fr <- ta.callNow('F', fc, id)
 			}()
 			var fres, bres string
 			for i := 0; i < 2 && !hung; i++ {
@@ -477,7 +501,7 @@ func execReactorConc(in string) Result {
 		waited = true
 	}
 	tags := []string{fmt.Sprintf("cap:%d", capN), fmt.Sprintf("ocap:%d", ocap), fmt.Sprintf("P:%d", P), fmt.Sprintf("K:%d", K),
-		fmt.Sprintf("fb:%d", fbPct), fmt.Sprintf("noise:%d", noise)}
+		fmt.Sprintf("fb:%d", fbPct), fmt.Sprintf("noise:%d", noise), "obj:" + obj}
 	if freezeAt > 0 {
 		tags = append(tags, "freeze")
 	}
